@@ -107,6 +107,7 @@ func (s *replaySubjectImpl[T]) Next(value T) {
 // Implements Observer.
 func (s *replaySubjectImpl[T]) NextWithContext(ctx context.Context, value T) {
 	s.mu.Lock()
+	defer s.mu.Unlock() // deferred: an observer of the caller's own may panic in Next
 
 	if s.status == KindNext {
 		s.broadcastNext(ctx, value)
@@ -119,8 +120,6 @@ func (s *replaySubjectImpl[T]) NextWithContext(ctx context.Context, value T) {
 	} else {
 		OnDroppedNotification(ctx, NewNotificationNext(value))
 	}
-
-	s.mu.Unlock()
 }
 
 // Implements Observer.
